@@ -1,1 +1,4 @@
+pub mod json;
+pub mod keys;
+pub mod meta;
 pub mod text;
